@@ -202,6 +202,7 @@ class Interp:
         self.max_steps = max_steps
         self.globals = {}         # module-level variables
         self.region_log = []
+        self.trips = {}           # id(loop) -> [trip counts per execution]
 
     # ------------------------------------------------------------------
     # storage access
@@ -1130,6 +1131,7 @@ class Interp:
 
     def x_loop(self, node, frame):
         start, step, trips = self.loop_values(node, frame)
+        self.trips.setdefault(id(node), []).append(trips)
         var = self.lookup(node.variable, frame)
         saved_loops = self.loops
         try:
